@@ -946,3 +946,116 @@ Proof.
   exact (SuperSched.super_fair_termination P R false (fun _ _ => []) extra supers sorted fuel HR HX (SuperSched.contract_length P R extra supers Hc)).
 Qed.
 Print Assumptions C01_superset_fair_termination.
+
+(* ======================================================================================================================
+   HISTORIES ON ONE NOTIFY OBJECT (C01/Reconfig.v).  The cfg_* definitions are GENERATED from sc_notify.c (Gen/NotifyCfgC01.v:
+   whole bodies of sc_notify_nary_set_widths, sc_notify_ranges_set_num_ranges, sc_notify_set_eager_threshold,
+   sc_notify_superset_set_callback, sc_notify_set_type, sc_notify_nary_init, sc_notify_ranges_init; the parameter reads of
+   sc_notify_payload_nary; the eager test of sc_notify_payload; the field footprint of the round functions).  The state
+   model obj_step / obj_run / obj_round is built from them, extracted, compared with the getters of the real object after
+   every prefix of every generated history and co-simulated against every round (checks/notify_common.py history_tie).
+   ====================================================================================================================== *)
+From Coq Require Import String.
+From ScV Require Import Gen.NotifyCfgC01 C01.Reconfig.
+
+(* the generated setters assign exactly the fields they name, with the values passed *)
+Theorem C01_gen_cfg_setters : forall a b c n f x,
+  cfg_set_widths a b c = (a, b, c) /\ cfg_set_num_ranges n = n /\ cfg_set_eager_threshold n = n /\ cfg_set_callback f x = (f, x).
+Proof. intros. repeat split. Qed.
+Print Assumptions C01_gen_cfg_setters.
+
+(* the generated sc_notify_set_type (outputs: new type, "sc_notify_nary_init was called", "sc_notify_ranges_init was called",
+   "aborted"): nothing happens when the type stays; a change stores the type and runs exactly the initialisation of the new type;
+   SC_NOTIFY_DEFAULT (-1) stands for the global default d *)
+Theorem C01_gen_cfg_set_type : forall cur t d,
+  (0 <= t < 9 -> cfg_set_type cur t d = if cur =? t then (cur, 0, 0, 0) else (t, b2z (t =? 2), b2z (t =? 7), 0)) /\
+  (cfg_set_type cur (-1) d = cfg_set_type cur d d \/ d = -1).
+Proof. intros. split; [apply gen_set_type|apply gen_set_type_default]. Qed.
+Print Assumptions C01_gen_cfg_set_type.
+
+(* the generated initialisations: n-ary = communicator, size, rank, then set_widths (called = 1) with the three defaults;
+   ranges = the default number of ranges and the package id *)
+Theorem C01_gen_cfg_init : forall comm P me a b c d pk,
+  cfg_nary_init comm P me a b c = (comm, P, me, 1, a, b, c) /\ cfg_ranges_init d pk = (d, pk).
+Proof. intros. split; reflexivity. Qed.
+Print Assumptions C01_gen_cfg_init.
+
+(* where a round reads its parameters: the n-ary round takes size, rank and the three widths from (its copy of) the object's
+   n-ary data, unchanged; the dispatcher's eager test is `payload present and item size <= eager_threshold`; the enumerators of
+   sc_notify_type_t have the values the programs' type numbers assume *)
+Theorem C01_gen_cfg_round_reads : forall ms mr a b c p sz thr,
+  cfg_nary_read ms mr a b c = (ms, mr, a, b, c) /\ cfg_eager p sz thr = b2z (z2b p && (sz <=? thr)) /\
+  [cfg_SC_NOTIFY_DEFAULT; cfg_SC_NOTIFY_ALLGATHER; cfg_SC_NOTIFY_BINARY; cfg_SC_NOTIFY_NARY; cfg_SC_NOTIFY_PEX; cfg_SC_NOTIFY_PCX;
+   cfg_SC_NOTIFY_RSX; cfg_SC_NOTIFY_NBX; cfg_SC_NOTIFY_RANGES; cfg_SC_NOTIFY_SUPERSET; cfg_SC_NOTIFY_NUM_TYPES] = [-1; 0; 1; 2; 3; 4; 5; 6; 7; 8; 9].
+Proof. intros. repeat split. Qed.
+Print Assumptions C01_gen_cfg_round_reads.
+
+(* FRAME (generated footprint, transitive over the functions of sc_notify.c): sc_notify_payload and sc_notify_payloadv READ the
+   listed fields of the notify object, WRITE NONE, take the address of none, and hand the object only to the user's callbacks;
+   the n-ary round keeps depth and npay in its local copy of the n-ary data.  So no round can leave anything behind in the
+   object for a later round (stats / flop excluded). *)
+Theorem C01_gen_round_frame : cfg_footprints = footprint_expected /\
+  forall n r w x, In (n, (r, w, x)) footprint_expected -> n <> "sc_notify_payload_nary (local copy)"%string -> w = [].
+Proof.
+  split; [exact footprint_frame|]. intros n r w x H N. unfold footprint_expected in H. cbn [In] in H.
+  destruct H as [H|[H|[H|[]]]]; inversion H; subst; try reflexivity. exfalso. apply N. reflexivity.
+Qed.
+Print Assumptions C01_gen_round_frame.
+
+(* one reconfiguration step in closed form (what the oracle's state model applies): for a legal op *)
+Theorem C01_reconfig_step_spec : forall e o op, legal_op o op ->
+  obj_step e o op =
+  match op with
+  | OpType t => mset_type e o t
+  | OpWidths a b c => mk_nobj (o_type o) (o_thresh o) (o_mpisize o) (o_mpirank o) a b c (o_nranges o) (o_cb o) (o_ctx o)
+  | OpRanges n => mk_nobj (o_type o) (o_thresh o) (o_mpisize o) (o_mpirank o) (o_ntop o) (o_nint o) (o_nbot o) n (o_cb o) (o_ctx o)
+  | OpThresh n => mk_nobj (o_type o) n (o_mpisize o) (o_mpirank o) (o_ntop o) (o_nint o) (o_nbot o) (o_nranges o) (o_cb o) (o_ctx o)
+  | OpCallback f c => mk_nobj (o_type o) (o_thresh o) (o_mpisize o) (o_mpirank o) (o_ntop o) (o_nint o) (o_nbot o) (o_nranges o) f c
+  | OpNew => obj_new e
+  end.
+Proof. exact step_spec. Qed.
+Print Assumptions C01_reconfig_step_spec.
+
+(* set_type to the type the object already has keeps every parameter; a CHANGE keeps the threshold and puts the defaults of the
+   new type in force (n-ary: size and rank of the communicator, default widths; ranges: default number of ranges) *)
+Theorem C01_reconfig_set_type : forall e o t, 0 <= t < 9 ->
+  (o_type o = t -> obj_step e o (OpType t) = o) /\
+  (o_type o <> t ->
+   let o' := obj_step e o (OpType t) in
+   o_type o' = t /\ o_thresh o' = o_thresh o /\
+   (t = 2 -> (o_mpisize o', o_mpirank o', o_ntop o', o_nint o', o_nbot o') = (e_P e, e_me e, e_ntop_default e, e_nint_default e, e_nbot_default e)) /\
+   (t = 7 -> o_nranges o' = e_nranges_default e)).
+Proof. intros e o t Ht. split; [intros <-; apply set_type_same; exact Ht|intros N; apply set_type_change_defaults; assumption]. Qed.
+Print Assumptions C01_reconfig_set_type.
+
+(* A ROUND DEPENDS ONLY ON THE PARAMETERS IN FORCE (type, threshold, data of the current type) *)
+Theorem C01_reconfig_round_depends_on_params : forall fuel e o1 o2 sorted R pays sz extra supers,
+  params o1 = params o2 -> obj_round fuel e o1 sorted R pays sz extra supers = obj_round fuel e o2 sorted R pays sz extra supers.
+Proof. exact round_depends_on_params. Qed.
+Print Assumptions C01_reconfig_round_depends_on_params.
+
+(* RECONFIGURATION THEN ROUND = ROUND OF A FRESH OBJECT WITH THESE PARAMETERS, for EVERY legal history h on one object (any
+   number of rounds before are irrelevant by C01_gen_round_frame: a round does not write the object): setup o = new; set_type;
+   the setter of that type; set_eager_threshold *)
+Theorem C01_reconfig_round_fresh : forall fuel e h sorted R pays sz extra supers, legal e h ->
+  legal e (setup (obj_run e h)) /\
+  obj_round_hist fuel e h sorted R pays sz extra supers = obj_round_hist fuel e (setup (obj_run e h)) sorted R pays sz extra supers.
+Proof. exact reconfig_round_fresh. Qed.
+Print Assumptions C01_reconfig_round_fresh.
+
+(* ... and it IS the single call (notify_prog, the program of all other C01 theorems) with the parameters the object shows *)
+Theorem C01_reconfig_round_is_single_call : forall fuel e h sorted R pays sz extra supers, legal e h ->
+  let o := obj_run e h in
+  let eager := match pays with None => false | Some _ => sz <=? o_thresh o end in
+  obj_round_hist fuel e h sorted R pays sz extra supers =
+  notify_prog fuel (o_type o) (e_P e) (e_me e) (if o_type o =? 2 then o_ntop o else if o_type o =? 7 then o_nranges o else 0)
+              (if o_type o =? 2 then o_nint o else 0) (if o_type o =? 2 then o_nbot o else 0) sorted R pays sz eager extra supers.
+Proof. exact round_is_single_call. Qed.
+Print Assumptions C01_reconfig_round_is_single_call.
+
+(* the hypotheses are satisfiable: widths (8,8,8), then (3,3,3), a switch to pex and back (defaults 2,2,2 in force), on 5 ranks *)
+Example C01_reconfig_example :
+  let e := mk_nenv 5 0 3 1024 2 2 2 25 in
+  legal e [OpType 2; OpWidths 8 8 8; OpWidths 3 3 3] /\ obj_obs (obj_run e [OpType 2; OpWidths 8 8 8; OpWidths 3 3 3]) = [2; 1024; 3; 3; 3; -1] /\
+  obj_obs (obj_run e [OpType 2; OpWidths 8 8 8; OpType 3; OpType 2]) = [2; 1024; 2; 2; 2; -1].
+Proof. cbv zeta. split; [|split; reflexivity]. unfold legal. cbn [legal_from legal_op e_type_default]. repeat split; try lia; reflexivity. Qed.
